@@ -179,6 +179,14 @@ def shard(col, shard_i, ngrammars, ninputs, exhaustive_len):
     refs = []
     for gi in range(ngrammars):
         g, kind = G.lrec_grammar(rng)
+        force_upper = False
+        if gi < 2:
+            # two grammars per shard whose cycle runs through a helper rule, which is then spelled in upper case (see below)
+            for _ in range(60):
+                if kind in ('postfix', 'aliased', 'aliased2', 'mutual', 'optcall') and not g.get('renamed'):
+                    break
+                g, kind = G.lrec_grammar(rng)
+            force_upper = True
         col.count('kind.' + kind)
         texts = G.lrec_inputs(rng, ninputs, maxlen=7, g=g)
         if exhaustive_len and gi % 4 == 0:
@@ -207,8 +215,34 @@ def shard(col, shard_i, ngrammars, ninputs, exhaustive_len):
                 for d in range(depth):
                     inner = f'({inner}{o1}{d + 2}){o2}({d}{o1}x)'
                 texts = texts + [f'a[{inner}]', f'a[{inner}:5]', f'a[{inner}:{inner}]', f'a.b[{inner}:1].c', f'a[{inner}', f'a[{inner}:]', f'a[1][{inner}:2]']
+        # @nomemo on some rules of the grammar - the recursive ones included: seeds are not memos, the rule still grows
+        if rng.random() < 0.25:
+            g = dict(g)
+            g['rules'] = [(n, (d + ['nomemo']) if rng.random() < 0.5 and 'nomemo' not in d else d, e) for n, d, e in g['rules']]
+            col.count('grammar.with-nomemo')
+        # helper rules of a cycle spelled in upper case (token rules: Primary / FieldAccess style)
+        if (gi % 5 == 3 or force_upper) and not g.get('renamed'):
+            cand = [n for n, _, _ in g['rules'] if n not in ('start', 'expr') and n.islower()]
+            # prefer helper rules that lie ON the cycle (they call back into the recursive rule)
+            on_cycle = [n for n, _, e in g['rules'] if n in cand and any(x == ('call', 'expr') for x in E.walk(e))]
+            if on_cycle and (force_upper or rng.random() < 0.8):
+                cand = on_cycle
+            if cand:
+                old_name = rng.choice(cand)
+                g = dict(g)
+                g['rules'] = G.rename_rule(g['rules'], old_name, old_name.capitalize())
+                g['renamed'] = (old_name, old_name.capitalize())
+                col.count('grammar.upper-case-helper')
+                # an upper-case rule does not skip whitespace at its entry: the reference parser (which does) is asked about
+                # texts without blanks only
+                texts = sorted({t.replace(' ', '') for t in texts})
+        # the memo cache may be as small as the engine allows (the setting is clamped to one entry per line): seeds live elsewhere
+        settings = None
+        if gi % 4 == 2:
+            settings = E.Settings(perlinememos=rng.choice([0, 0.0, -1, 0.01, 0.5, 1]))
+            col.count('settings.perlinememos')
         for t in texts:
-            cases.append(R.Case(g, t, None, None, semspec, tag=kind))
+            cases.append(R.Case(g, t, None, settings, semspec, tag=kind))
             refs.append(ref if semspec == ('none', {}) else None)
     results = []
     for off in range(0, len(cases), 400):
@@ -238,7 +272,7 @@ def shard(col, shard_i, ngrammars, ninputs, exhaustive_len):
                           {'correspondence': 'E1 left recursion', 'case': small.describe(), 'impl': rr[1], 'model': rr[2]})
         # the generated parser must agree with the model on success / failure and, where C02's known binding differences
         # cannot arise (no names in these templates except the 'named' kind), on the value
-        if col.rng.random() < 0.25:
+        if col.rng.random() < 0.25 or (c.g.get('renamed') and c.g['renamed'][1][:1].isupper()):
             go, _ = R.gen_outcome(c)
             col.count('genparser.compared')
             if isinstance(go, tuple) and go and go[0] in ('ok', 'fail', 'exc', 'recursion') and io[0] in ('ok', 'fail'):
